@@ -441,6 +441,21 @@ func body(w *runner.W) {
 			copies.Do(CopyCase{Old: old2, New: wh.Build{wh.F("b", X)}, Comp: comps[(n+2)%3]})
 			copies.Do(CopyCase{Old: old2, New: wh.Build{wh.F("y/a", X), wh.F("y/b", X), wh.F("y/u", U)}, Comp: comps[n%3]})
 		}
+		// weak twins: a block of the new build has the weak hash of an old block but not its
+		// content (lower-case token), and the real block occurs later — in the same file, in
+		// a later file, under another name. The real occurrences must still be found.
+		for _, tw := range []struct{ old, nw wh.Build }{
+			{wh.Build{wh.F("a", "A.B.C")}, wh.Build{wh.F("a", "a.B.C"), wh.F("zc", "A.B.C")}},
+			{wh.Build{wh.F("a", "A.B.C")}, wh.Build{wh.F("0c", "A.B.C"), wh.F("a", "a.B.C"), wh.F("zc", "A.B.C")}},
+			{wh.Build{wh.F("a", "A.B"), wh.F("b", "C.D/100")}, wh.Build{wh.F("a", "a.b"), wh.F("m", "A.B"), wh.F("n", "C.D/100")}},
+			{wh.Build{wh.F("a", "A.B")}, wh.Build{wh.F("a", "a.=x.A.B"), wh.F("m", "A.B")}},
+			{wh.Build{wh.F("a", "B.A")}, wh.Build{wh.F("a", "b.a.b.a"), wh.F("u", "B.A")}},
+			{wh.Build{wh.F("a", "A/100")}, wh.Build{wh.F("a", "a.A/100"), wh.F("m", "A/100")}},
+		} {
+			for _, c := range comps {
+				copies.Do(CopyCase{Old: tw.old, New: tw.nw, Comp: c})
+			}
+		}
 		// every registered compression setting on one rename+duplicate pair
 		for _, c := range wh.AllComps() {
 			copies.Do(CopyCase{Old: wh.Build{wh.F("a", bases[0]), wh.F("u", U)}, New: wh.Build{wh.F("0c", bases[0]), wh.F("zz", bases[0]), wh.F("u", U)}, Comp: c})
